@@ -4,4 +4,19 @@ KERNELS = {
         dict(name='add', impl=r'impl<S> ScalarFunction for Add<S>'),
         dict(name='dadd', impl=r'impl<D> ScalarFunction for DecimalAdd<D>'),
     ],
+    'arith_sub': [
+        dict(name='sub', impl=r'impl<S> ScalarFunction for Sub<S>'),
+        dict(name='dsub', impl=r'impl<D> ScalarFunction for DecimalSub<D>'),
+    ],
+    'arith_mul': [
+        dict(name='mul', impl=r'impl<S> ScalarFunction for Mul<S>'),
+        dict(name='dmul', impl=r'impl<D> ScalarFunction for DecimalMul<D>'),
+        dict(name='imul', impl=r'impl<Rhs, const LHS_RHS_FLIPPED: bool> ScalarFunction for MulInterval'),
+    ],
+    'arith_div': [
+        dict(name='div', impl=r'impl<S> ScalarFunction for Div<S>'),
+    ],
+    'arith_rem': [
+        dict(name='rem', impl=r'impl<S> ScalarFunction for Rem<S>'),
+    ],
 }
